@@ -133,13 +133,11 @@ def handleGen (op : String) (j : Json) : Except String Json := do
     let idOf := fun (p : PInstS) => (p.parameters.headD 0).num.toNat
     let mkFn := fun (p : PInstS) => (⟨idOf p * 4 + (if p.next.isSome then 2 else 0) + (if p.start.start == negInf && p.start.range_type == ">" then 1 else 0)⟩ : FnObj2)
     let enc := fun (q : Rat) => (q * 1000).num.toNat
+    -- the regenerated build_spline methods of the two factories, with recording spline constructors
+    let mkExp := fun (d a : SplPoint) => (.ok ⟨(((1 * 1000 + d.fn.id) * 100000 + enc d.r) * 1000 + a.fn.id) * 100000 + enc a.r⟩ : Except SplBuildErr SplCore)
+    let mkB4 := fun (d a : SplPoint) (rm : Rat) => (.ok ⟨((((2 * 1000 + d.fn.id) * 100000 + enc d.r) * 1000 + a.fn.id) * 100000 + enc a.r) * 100000 + enc rm⟩ : Except SplBuildErr SplCore)
     let build := fun (f : SplFactory) (d a : SplPoint) (mid : PInstS) =>
-      if f.spline_keyword == "exp_spline" then
-        (if mid.parameters.isEmpty then (.ok ⟨(((1 * 1000 + d.fn.id) * 100000 + enc d.r) * 1000 + a.fn.id) * 100000 + enc a.r⟩ : Except SplBuildErr SplCore) else .error .config)
-      else
-        match mid.parameters with
-        | [rm] => if d.r < rm && rm < a.r then .ok ⟨((((2 * 1000 + d.fn.id) * 100000 + enc d.r) * 1000 + a.fn.id) * 100000 + enc a.r) * 100000 + enc rm⟩ else .error .config
-        | _ => .error .config
+      if f.spline_keyword == "exp_spline" then exp_build_spline mkExp d a mid else buck4_build_spline mkB4 d a mid
     match spline_modifier negInf mkFn build (fun c => ⟨c⟩) forms () with
     | .ok o => return natJ o.core.id
     | .error e => return Json.str (match e with
